@@ -441,6 +441,36 @@ let () =
          | _ -> "err")
       | _ -> failwith "format")
 
+(* ---- generator (C08 static part, C09) ---- *)
+let rec jrty (t : Gen.rty) : Json.json =
+  match t with
+  | Gen.RBool -> Json.JStr (key "bool") | Gen.RI64 -> Json.JStr (key "i64") | Gen.RF64 -> Json.JStr (key "f64")
+  | Gen.RString -> Json.JStr (key "String") | Gen.RValue -> Json.JStr (key "serde_json::Value")
+  | Gen.RNamed n -> Json.JObj [ (key "named", jstr n) ]
+  | Gen.RVec t -> Json.JObj [ (key "Vec", jrty t) ]
+  | Gen.RMap t -> Json.JObj [ (key "StringHashMap", jrty t) ]
+  | Gen.RSet -> Json.JStr (key "StringHashSet")
+  | Gen.ROpt t -> Json.JObj [ (key "Option", jrty t) ]
+
+let () =
+  register "gen_model" (fun a ->
+      match a with
+      | [x] ->
+        (match Idl.try_from (codepoints (unhex x)) with
+         | Idl.OIdl i ->
+           let defs = Stdlib.List.map (fun (n, d) ->
+               match d with
+               | Gen.DStruct fs ->
+                 Json.JObj [ (key "name", jstr n); (key "struct", Json.JArr (Stdlib.List.map (fun ((f, t), sk) ->
+                     Json.JObj [ (key "name", jstr f); (key "type", jrty t); (key "skip", Json.JBool sk) ]) fs)) ]
+               | Gen.DEnum es -> Json.JObj [ (key "name", jstr n); (key "enum", Json.JArr (Stdlib.List.map jstr es)) ])
+               (Gen.emitted i) in
+           "ok " ^ bh (Json.print (Json.JObj [ (key "panics", Json.JBool (Gen.generator_panics i)); (key "defs", Json.JArr defs);
+                                               (key "fns", Json.JArr (Stdlib.List.map jstr (Gen.emitted_fn_names i))) ]))
+         | Idl.OParseError | Idl.ODuplicates _ -> "err"
+         | Idl.OOutOfFuel -> "FUEL")
+      | _ -> failwith "gen_model")
+
 let () =
   let tbl = handlers in
   (try
